@@ -108,7 +108,7 @@ impl Check for C10 {
     }
     fn runs(&self, tier: Tier) -> u64 {
         match tier {
-            Tier::Quick => 200_000,
+            Tier::Quick => 600_000,
             Tier::Thorough => 10_000_000,
         }
     }
